@@ -98,11 +98,18 @@ Section Total.
      an entry the uint16 loop of a range "x-y" in readGlyphList would not end) *)
   Hypothesis Hnum : num_glyphs F <= 65535.
   Hypothesis Hcm : Forall (fun p => snd p <> 65535) (f_cmap F).
+  (* a set of line numbers that contains the line of every item and endl *)
+  Variable Lok : N -> Prop.
+  Hypothesis Hendl : Lok endl.
+
+  Definition tokL (t : token) : Prop := tok_ok t /\ Lok (tline t).
+  Definition toksL (ts : list token) : Prop := Forall tokL ts.
 
   Definition good {A} (n : nat) (r : presult (A * list token)) : Prop :=
     match r with
-    | POk (_, ts') => toks_ok ts' /\ (length ts' <= n)%nat
-    | PErr _ | PUnmodelled => True
+    | POk (_, ts') => toksL ts' /\ (length ts' <= n)%nat
+    | PErr l => Lok l
+    | PUnmodelled => True
     | PPanic | PFuel => False
     end.
 
@@ -111,36 +118,41 @@ Section Total.
 
   Lemma good_bind : forall {A B} (m : P A) (f : A -> P B) ts k n,
     good k (m ts) ->
-    (forall a ts', toks_ok ts' -> (length ts' <= k)%nat -> good n (f a ts')) ->
+    (forall a ts', toksL ts' -> (length ts' <= k)%nat -> good n (f a ts')) ->
     good n (bind m f ts).
   Proof.
     intros A B m f ts k n G H. unfold bind. destruct (m ts) as [[a ts']|l| | |]; cbn in G; auto.
     destruct G. apply H; auto.
   Qed.
 
-  Lemma good_ret : forall {A} (a : A) ts n, toks_ok ts -> (length ts <= n)%nat -> good n (ret a ts).
+  Lemma good_ret : forall {A} (a : A) ts n, toksL ts -> (length ts <= n)%nat -> good n (ret a ts).
   Proof. intros. cbn. auto. Qed.
-  Lemma good_fatal : forall {A} ts n, good n (@fatal endl A ts).
-  Proof. intros. exact I. Qed.
+  Lemma syn_ok : tokL (syn_eof endl).
+  Proof. split; [intros X; discriminate X|exact Hendl]. Qed.
 
-  Lemma syn_ok : tok_ok (syn_eof endl).
-  Proof. intros X. discriminate X. Qed.
-
-  Lemma peek_ok : forall ts, toks_ok ts -> tok_ok (peek_tok endl ts).
+  Lemma peek_ok : forall ts, toksL ts -> tokL (peek_tok endl ts).
   Proof. intros [|t r] H; cbn; [apply syn_ok|]. inversion H; auto. Qed.
+
+  Lemma tl_ok0 : forall ts, toksL ts -> toksL (tl ts).
+  Proof. intros [|t r] H; cbn; auto. inversion H; auto. Qed.
+
+  Lemma good_fatal : forall {A} ts n, toksL ts -> good n (@fatal endl A ts).
+  Proof. intros A ts n H. cbn. apply (peek_ok ts H). Qed.
+
+  Ltac gf := first [exact I | (apply good_fatal; auto; try (apply tl_ok0; auto))].
 
   Lemma read_eq : forall ts, read endl ts = POk (peek_tok endl ts, tl ts).
   Proof. intros [|t r]; reflexivity. Qed.
 
-  Lemma tl_ok : forall ts, toks_ok ts -> toks_ok (tl ts).
+  Lemma tl_ok : forall ts, toksL ts -> toksL (tl ts).
   Proof. intros [|t r] H; cbn; auto. inversion H; auto. Qed.
 
   Lemma peek_not_eof_len : forall ts, ttyp (peek_tok endl ts) <> TEOF -> S (length (tl ts)) = length ts.
   Proof. intros [|t r] H; cbn in *; [congruence|reflexivity]. Qed.
 
   (* pushing back the item just read never makes the stream longer *)
-  Lemma unread_peek : forall ts, toks_ok ts ->
-    exists ts', unread endl (peek_tok endl ts) (tl ts) = POk (tt, ts') /\ toks_ok ts' /\ (length ts' <= length ts)%nat.
+  Lemma unread_peek : forall ts, toksL ts ->
+    exists ts', unread endl (peek_tok endl ts) (tl ts) = POk (tt, ts') /\ toksL ts' /\ (length ts' <= length ts)%nat.
   Proof.
     intros [|t [|t' r]] H; cbn.
     - unfold is_syn_eof. cbn. rewrite N.eqb_refl. exists []. repeat split; auto.
@@ -148,9 +160,9 @@ Section Total.
     - eexists. repeat split; eauto.
   Qed.
 
-  Lemma optional_good : forall ty ts, ityp_eqb (TEOF) ty = false -> toks_ok ts ->
+  Lemma optional_good : forall ty ts, ityp_eqb (TEOF) ty = false -> toksL ts ->
     match optional endl ty ts with
-    | POk (b, ts') => toks_ok ts' /\ (if b then (S (length ts') <= length ts)%nat else (length ts' <= length ts)%nat)
+    | POk (b, ts') => toksL ts' /\ (if b then (S (length ts') <= length ts)%nat else (length ts' <= length ts)%nat)
     | _ => False
     end.
   Proof.
@@ -162,9 +174,9 @@ Section Total.
   Qed.
 
   Lemma good_bind_opt : forall {B} ty (f : bool -> P B) ts k n,
-    ityp_eqb TEOF ty = false -> toks_ok ts -> (length ts <= k)%nat ->
-    (forall ts', toks_ok ts' -> (S (length ts') <= k)%nat -> good n (f true ts')) ->
-    (forall ts', toks_ok ts' -> (length ts' <= k)%nat -> good n (f false ts')) ->
+    ityp_eqb TEOF ty = false -> toksL ts -> (length ts <= k)%nat ->
+    (forall ts', toksL ts' -> (S (length ts') <= k)%nat -> good n (f true ts')) ->
+    (forall ts', toksL ts' -> (length ts' <= k)%nat -> good n (f false ts')) ->
     good n (bind (optional endl ty) f ts).
   Proof.
     intros B ty f ts k n Hty Hok Hl Ht Hf. pose proof (optional_good ty ts Hty Hok) as G.
@@ -172,9 +184,9 @@ Section Total.
     destruct G as [G1 G2]. destruct b; [apply Ht|apply Hf]; auto; lia.
   Qed.
 
-  Lemma optional_ident_good : forall s ts, toks_ok ts ->
+  Lemma optional_ident_good : forall s ts, toksL ts ->
     match optional_ident endl s ts with
-    | POk (b, ts') => toks_ok ts' /\ (if b then (S (length ts') <= length ts)%nat else (length ts' <= length ts)%nat)
+    | POk (b, ts') => toksL ts' /\ (if b then (S (length ts') <= length ts)%nat else (length ts' <= length ts)%nat)
     | _ => False
     end.
   Proof.
@@ -185,34 +197,34 @@ Section Total.
     - destruct (unread_peek ts H) as (ts' & Eu & Ok & Len). rewrite Eu. cbn. auto.
   Qed.
 
-  Lemma required_good : forall ty ts k, ityp_eqb TEOF ty = false -> toks_ok ts -> (length ts <= S k)%nat ->
+  Lemma required_good : forall ty ts k, ityp_eqb TEOF ty = false -> toksL ts -> (length ts <= S k)%nat ->
     good k (required endl ty ts).
   Proof.
     intros ty ts k Hty H Hl. unfold required, bind. rewrite read_eq.
-    destruct (ityp_eqb (ttyp (peek_tok endl ts)) ty) eqn:E; [|exact I].
+    destruct (ityp_eqb (ttyp (peek_tok endl ts)) ty) eqn:E; [|gf].
     cbn. split; [apply tl_ok; auto|].
     assert (X : ttyp (peek_tok endl ts) <> TEOF) by (intros X; rewrite X in E; congruence).
     apply peek_not_eof_len in X. lia.
   Qed.
 
-  Lemma read_identifier_good : forall ts k, toks_ok ts -> (length ts <= S k)%nat ->
+  Lemma read_identifier_good : forall ts k, toksL ts -> (length ts <= S k)%nat ->
     good k (read_identifier endl ts).
   Proof.
     intros ts k H Hl. unfold read_identifier, bind. rewrite read_eq.
-    destruct (ityp_eqb (ttyp (peek_tok endl ts)) TIdent) eqn:E; [|exact I].
+    destruct (ityp_eqb (ttyp (peek_tok endl ts)) TIdent) eqn:E; [|gf].
     cbn. split; [apply tl_ok; auto|].
     assert (X : ttyp (peek_tok endl ts) <> TEOF) by (intros X; rewrite X in E; discriminate).
     apply peek_not_eof_len in X. lia.
   Qed.
 
-  Lemma rlf_good : forall fuel flags ts n, toks_ok ts -> (length ts <= n)%nat -> (n < fuel)%nat ->
+  Lemma rlf_good : forall fuel flags ts n, toksL ts -> (length ts <= n)%nat -> (n < fuel)%nat ->
     good n (read_lookup_flags endl fuel flags ts).
   Proof.
     induction fuel as [|f IH]; intros flags ts n H Hl Hf; [lia|]. cbn [read_lookup_flags].
     apply (good_bind_opt THyphen _ ts n n); auto.
     - intros ts1 O1 L1. apply (good_bind _ _ _ (n - 1)%nat).
       + apply read_identifier_good; auto. lia.
-      + intros nm ts2 O2 L2. destruct (flag_of_name builder_parseFlags nm); [|exact I].
+      + intros nm ts2 O2 L2. destruct (flag_of_name builder_parseFlags nm); [|gf].
         apply (good_weaken (n - 1)%nat); [lia|]. apply IH; auto. lia.
     - intros ts1 O1 L1. apply (good_bind_opt TEOL _ ts1 n n); auto; intros; apply good_ret; auto; lia.
   Qed.
@@ -281,12 +293,12 @@ Section Total.
   Lemma classify_eof : forall t, ttyp t = TEOF -> classify F t = GDone.
   Proof. intros t H. unfold classify. rewrite H. reflexivity. Qed.
 
-  Lemma rgl_good : forall fuel res hy ts n, toks_ok ts -> (length ts <= n)%nat -> (n < fuel)%nat ->
+  Lemma rgl_good : forall fuel res hy ts n, toksL ts -> (length ts <= n)%nat -> (n < fuel)%nat ->
     good n (read_glyph_list_loop F endl fuel res hy ts).
   Proof.
     induction fuel as [|f IH]; intros res hy ts n H Hl Hf; [lia|]. cbn [read_glyph_list_loop].
     unfold bind at 1. rewrite read_eq.
-    pose proof (peek_ok ts H) as Hp. pose proof (classify_no_panic _ Hp) as Hnp.
+    pose proof (peek_ok ts H) as Hp. pose proof (classify_no_panic _ (proj1 Hp)) as Hnp.
     assert (Hstrict : ttyp (peek_tok endl ts) <> TEOF -> (length (tl ts) <= n - 1)%nat /\ (n - 1 < f)%nat).
     { intros X. apply peek_not_eof_len in X. lia. }
     destruct (classify F (peek_tok endl ts)) as [next| | | |] eqn:Ec; try congruence.
@@ -294,18 +306,18 @@ Section Total.
       { intros X. rewrite (classify_eof _ X) in Ec. discriminate. }
       destruct (Hstrict X) as [L1 L2].
       pose proof (add_gids_no_loop next res hy (classify_bound _ _ Ec)) as Hnl.
-      destruct (add_gids res hy next) as [res' hy'| |]; try congruence; [|exact I].
+      destruct (add_gids res hy next) as [res' hy'| |]; try congruence; [|gf].
       apply (good_weaken (n - 1)%nat); [lia|]. apply IH; auto. apply tl_ok; auto.
     - assert (X : ttyp (peek_tok endl ts) <> TEOF).
       { intros X. rewrite (classify_eof _ X) in Ec. discriminate. }
       destruct (Hstrict X) as [L1 L2].
-      destruct hy; [exact I|]. apply (good_weaken (n - 1)%nat); [lia|]. apply IH; auto. apply tl_ok; auto.
+      destruct hy; [gf|]. apply (good_weaken (n - 1)%nat); [lia|]. apply IH; auto. apply tl_ok; auto.
     - destruct (unread_peek ts H) as (ts' & Eu & Ok & Len). unfold bind. rewrite Eu.
-      destruct hy; [exact I|]. apply good_ret; auto. lia.
-    - exact I.
+      destruct hy; [gf|]. apply good_ret; auto. lia.
+    - gf.
   Qed.
 
-  Lemma rgs_good : forall fuel ts n, toks_ok ts -> (length ts <= n)%nat -> (n < fuel)%nat ->
+  Lemma rgs_good : forall fuel ts n, toksL ts -> (length ts <= n)%nat -> (n < fuel)%nat ->
     good n (read_glyph_set F endl fuel ts).
   Proof.
     intros fuel ts n H Hl Hf. unfold read_glyph_set.
@@ -316,11 +328,11 @@ Section Total.
   Qed.
 
   (* ---- value records ---- *)
-  Lemma read_int16_good : forall ts k, toks_ok ts -> (length ts <= S k)%nat -> good k (read_int16 endl ts).
+  Lemma read_int16_good : forall ts k, toksL ts -> (length ts <= S k)%nat -> good k (read_int16 endl ts).
   Proof.
     intros ts k H Hl. unfold read_int16, bind. rewrite read_eq.
-    destruct (ityp_eqb (ttyp (peek_tok endl ts)) TInt) eqn:E; [|exact I].
-    destruct (atoi _); [|exact I]. destruct (_ || _); [exact I|].
+    destruct (ityp_eqb (ttyp (peek_tok endl ts)) TInt) eqn:E; [|gf].
+    destruct (atoi _); [|gf]. destruct (_ || _); [gf|].
     cbn. split; [apply tl_ok; auto|].
     assert (X : ttyp (peek_tok endl ts) <> TEOF) by (intros X; rewrite X in E; discriminate).
     apply peek_not_eof_len in X. lia.
@@ -329,7 +341,7 @@ Section Total.
   Lemma is_ident_not_eof : forall t s, is_ident t s = true -> ttyp t <> TEOF.
   Proof. intros t s H X. unfold is_ident in H. rewrite X in H. discriminate. Qed.
 
-  Lemma rvl_good : forall fuel v ts n, toks_ok ts -> (length ts <= n)%nat -> (n < fuel)%nat ->
+  Lemma rvl_good : forall fuel v ts n, toksL ts -> (length ts <= n)%nat -> (n < fuel)%nat ->
     good n (read_value_loop endl fuel v ts).
   Proof.
     induction fuel as [|f IH]; intros v ts n H Hl Hf; [lia|]. cbn [read_value_loop].
@@ -347,7 +359,7 @@ Section Total.
     apply good_ret; auto. lia.
   Qed.
 
-  Lemma rvr_good : forall fuel ts n, toks_ok ts -> (length ts <= n)%nat -> (n < fuel)%nat ->
+  Lemma rvr_good : forall fuel ts n, toksL ts -> (length ts <= n)%nat -> (n < fuel)%nat ->
     good n (read_value_record endl fuel ts).
   Proof.
     intros fuel ts n H Hl Hf. unfold read_value_record.
@@ -359,11 +371,11 @@ Section Total.
       intros v ts2 O2 L2. apply good_ret; auto.
   Qed.
 
-  Lemma header_good : forall fuel ts n, toks_ok ts -> (length ts <= n)%nat -> (n < fuel)%nat ->
+  Lemma header_good : forall fuel ts n, toksL ts -> (length ts <= n)%nat -> (n < fuel)%nat ->
     good n (lookup_header endl fuel ts).
   Proof.
     intros fuel ts n H Hl Hf. unfold lookup_header.
-    assert (K : forall ts1, toks_ok ts1 -> (length ts1 <= n)%nat ->
+    assert (K : forall ts1, toksL ts1 -> (length ts1 <= n)%nat ->
                 good n ((optional endl TEOL ;;; read_lookup_flags endl fuel 0) ts1)).
     { intros ts1 O1 L1. apply (good_bind_opt TEOL _ ts1 n n); auto; intros ts2 O2 L2; apply rlf_good; auto; lia. }
     apply (good_bind_opt TColon _ ts n n); auto; intros ts1 O1 L1; apply K; auto; lia.
@@ -372,127 +384,131 @@ Section Total.
   (* ---- lookups ---- *)
   Definition goodlt {A} (n : nat) (r : presult (A * list token)) : Prop :=
     match r with
-    | POk (_, ts') => toks_ok ts' /\ (S (length ts') <= n)%nat
-    | PErr _ | PUnmodelled => True
+    | POk (_, ts') => toksL ts' /\ (S (length ts') <= n)%nat
+    | PErr l => Lok l
+    | PUnmodelled => True
     | PPanic | PFuel => False
     end.
 
+  Lemma goodlt_fatal : forall {A} ts n, toksL ts -> goodlt n (@fatal endl A ts).
+  Proof. intros A ts n H. cbn. apply (peek_ok ts H). Qed.
+
   Lemma good_bind_lt : forall {A B} (m : P A) (f : A -> P B) ts k n,
     goodlt k (m ts) ->
-    (forall a ts', toks_ok ts' -> (S (length ts') <= k)%nat -> good n (f a ts')) ->
+    (forall a ts', toksL ts' -> (S (length ts') <= k)%nat -> good n (f a ts')) ->
     good n (bind m f ts).
   Proof.
     intros A B m f ts k n G H. unfold bind. destruct (m ts) as [[a ts']|l| | |]; cbn in G; auto.
     destruct G. apply H; auto.
   Qed.
 
-  Lemma required_lt : forall ty ts k, ityp_eqb TEOF ty = false -> toks_ok ts -> (length ts <= k)%nat ->
+  Lemma required_lt : forall ty ts k, ityp_eqb TEOF ty = false -> toksL ts -> (length ts <= k)%nat ->
     goodlt k (required endl ty ts).
   Proof.
     intros ty ts k Hty H Hl. unfold required, bind. rewrite read_eq.
-    destruct (ityp_eqb (ttyp (peek_tok endl ts)) ty) eqn:E; [|exact I].
+    destruct (ityp_eqb (ttyp (peek_tok endl ts)) ty) eqn:E; [|apply goodlt_fatal; apply tl_ok0; auto].
     cbn. split; [apply tl_ok; auto|].
     assert (X : ttyp (peek_tok endl ts) <> TEOF) by (intros X; rewrite X in E; congruence).
     apply peek_not_eof_len in X. lia.
   Qed.
 
-  Lemma rgl_good' : forall fuel ts n, toks_ok ts -> (length ts <= n)%nat -> (n < fuel)%nat ->
+  Lemma rgl_good' : forall fuel ts n, toksL ts -> (length ts <= n)%nat -> (n < fuel)%nat ->
     good n (read_glyph_list F endl fuel ts).
   Proof. intros. apply rgl_good; auto. Qed.
 
   Ltac tail_comma IH n :=
-    match goal with O : toks_ok ?ts, L : (S (length ?ts) <= n)%nat |- _ => idtac end.
+    match goal with O : toksL ?ts, L : (S (length ?ts) <= n)%nat |- _ => idtac end.
 
-  Lemma gsub1_loop_good : forall fuel res ts n, toks_ok ts -> (length ts <= n)%nat -> (n < fuel)%nat ->
+  Lemma gsub1_loop_good : forall fuel res ts n, toksL ts -> (length ts <= n)%nat -> (n < fuel)%nat ->
     good n (gsub1_loop F endl fuel res ts).
   Proof.
     induction fuel as [|f IH]; intros res ts n H Hl Hf; [lia|]. cbn [gsub1_loop].
     apply (good_bind _ _ _ n); [apply rgl_good'; auto|]. intros fr ts1 O1 L1.
     apply (good_bind_lt _ _ _ n); [apply required_lt; auto|]. intros _ ts2 O2 L2.
     apply (good_bind _ _ _ (length ts2)); [apply rgl_good'; auto; lia|]. intros to ts3 O3 L3.
-    destruct (negb _); [exact I|]. destruct (add_pairs _ _ _); [|exact I].
+    destruct (negb _); [gf|]. destruct (add_pairs _ _ _); [|gf].
     apply (good_bind_opt TComma _ ts3 (length ts2) n); auto.
     - intros ts4 O4 L4. apply (good_bind_opt TEOL _ ts4 (length ts4) n); auto;
         intros ts5 O5 L5; apply (good_weaken (length ts5)); try lia; apply IH; auto; lia.
     - intros ts4 O4 L4. apply good_ret; auto. lia.
   Qed.
 
-  Lemma read_gsub1_good : forall fuel ts n, toks_ok ts -> (length ts <= n)%nat -> (n < fuel)%nat ->
+  Lemma read_gsub1_good : forall fuel ts n, toksL ts -> (length ts <= n)%nat -> (n < fuel)%nat ->
     good n (read_gsub1 F endl fuel ts).
   Proof.
     intros fuel ts n H Hl Hf. unfold read_gsub1.
     apply (good_bind _ _ _ n); [apply header_good; auto|]. intros fl ts1 O1 L1.
     apply (good_bind _ _ _ n); [apply gsub1_loop_good; auto|]. intros res ts2 O2 L2.
-    destruct (is_nil res); [exact I|apply good_ret; auto].
+    destruct (is_nil res); [gf|apply good_ret; auto].
   Qed.
 
-  Lemma gsub2_loop_good : forall fuel data ts n, toks_ok ts -> (length ts <= n)%nat -> (n < fuel)%nat ->
+  Lemma gsub2_loop_good : forall fuel data ts n, toksL ts -> (length ts <= n)%nat -> (n < fuel)%nat ->
     good n (gsub2_loop F endl fuel data ts).
   Proof.
     induction fuel as [|f IH]; intros data ts n H Hl Hf; [lia|]. cbn [gsub2_loop].
     apply (good_bind _ _ _ n); [apply rgl_good'; auto|]. intros fr ts1 O1 L1.
-    destruct fr as [|g [|g' fr']]; try exact I.
+    destruct fr as [|g [|g' fr']]; try gf.
     apply (good_bind_lt _ _ _ n); [apply required_lt; auto|]. intros _ ts2 O2 L2.
     apply (good_bind _ _ _ (length ts2)); [apply rgl_good'; auto; lia|]. intros to ts3 O3 L3.
     destruct (is_nil to).
-    { unfold bind. rewrite read_eq. exact I. }
-    destruct (has_key g data); [exact I|].
+    { unfold bind. rewrite read_eq. gf. }
+    destruct (has_key g data); [gf|].
     apply (good_bind_opt TComma _ ts3 (length ts2) n); auto.
     - intros ts4 O4 L4. apply (good_bind_opt TEOL _ ts4 (length ts4) n); auto;
         intros ts5 O5 L5; apply (good_weaken (length ts5)); try lia; apply IH; auto; lia.
     - intros ts4 O4 L4. apply good_ret; auto. lia.
   Qed.
 
-  Lemma read_gsub2_good : forall fuel ts n, toks_ok ts -> (length ts <= n)%nat -> (n < fuel)%nat ->
+  Lemma read_gsub2_good : forall fuel ts n, toksL ts -> (length ts <= n)%nat -> (n < fuel)%nat ->
     good n (read_gsub2 F endl fuel ts).
   Proof.
     intros fuel ts n H Hl Hf. unfold read_gsub2.
     apply (good_bind _ _ _ n); [apply header_good; auto|]. intros fl ts1 O1 L1.
     apply (good_bind _ _ _ n); [apply gsub2_loop_good; auto|]. intros res ts2 O2 L2.
-    destruct (is_nil res); [exact I|apply good_ret; auto].
+    destruct (is_nil res); [gf|apply good_ret; auto].
   Qed.
 
-  Lemma gsub3_loop_good : forall fuel data ts n, toks_ok ts -> (length ts <= n)%nat -> (n < fuel)%nat ->
+  Lemma gsub3_loop_good : forall fuel data ts n, toksL ts -> (length ts <= n)%nat -> (n < fuel)%nat ->
     good n (gsub3_loop F endl fuel data ts).
   Proof.
     induction fuel as [|f IH]; intros data ts n H Hl Hf; [lia|]. cbn [gsub3_loop].
     apply (good_bind _ _ _ n); [apply rgl_good'; auto|]. intros fr ts1 O1 L1.
-    destruct fr as [|g [|g' fr']]; try exact I.
+    destruct fr as [|g [|g' fr']]; try gf.
     apply (good_bind_lt _ _ _ n); [apply required_lt; auto|]. intros _ ts2 O2 L2.
     apply (good_bind _ _ _ (length ts2)); [apply rgs_good; auto; lia|]. intros to ts3 O3 L3.
-    destruct (has_key g data); [exact I|].
+    destruct (has_key g data); [gf|].
     apply (good_bind_opt TComma _ ts3 (length ts2) n); auto.
     - intros ts4 O4 L4. apply (good_bind_opt TEOL _ ts4 (length ts4) n); auto;
         intros ts5 O5 L5; apply (good_weaken (length ts5)); try lia; apply IH; auto; lia.
     - intros ts4 O4 L4. apply good_ret; auto. lia.
   Qed.
 
-  Lemma read_gsub3_good : forall fuel ts n, toks_ok ts -> (length ts <= n)%nat -> (n < fuel)%nat ->
+  Lemma read_gsub3_good : forall fuel ts n, toksL ts -> (length ts <= n)%nat -> (n < fuel)%nat ->
     good n (read_gsub3 F endl fuel ts).
   Proof.
     intros fuel ts n H Hl Hf. unfold read_gsub3.
     apply (good_bind _ _ _ n); [apply header_good; auto|]. intros fl ts1 O1 L1.
     apply (good_bind _ _ _ n); [apply gsub3_loop_good; auto|]. intros res ts2 O2 L2.
-    destruct (is_nil res); [exact I|apply good_ret; auto].
+    destruct (is_nil res); [gf|apply good_ret; auto].
   Qed.
 
-  Lemma gsub4_loop_good : forall fuel data ts n, toks_ok ts -> (length ts <= n)%nat -> (n < fuel)%nat ->
+  Lemma gsub4_loop_good : forall fuel data ts n, toksL ts -> (length ts <= n)%nat -> (n < fuel)%nat ->
     good n (gsub4_loop F endl fuel data ts).
   Proof.
     induction fuel as [|f IH]; intros data ts n H Hl Hf; [lia|]. cbn [gsub4_loop].
     apply (good_bind _ _ _ n); [apply rgl_good'; auto|]. intros fr ts1 O1 L1.
     destruct fr as [|key comps].
-    { unfold bind. rewrite read_eq. exact I. }
+    { unfold bind. rewrite read_eq. gf. }
     apply (good_bind_lt _ _ _ n); [apply required_lt; auto|]. intros _ ts2 O2 L2.
     apply (good_bind _ _ _ (length ts2)); [apply rgl_good'; auto; lia|]. intros to ts3 O3 L3.
-    destruct to as [|out [|o' to']]; try exact I.
+    destruct to as [|out [|o' to']]; try gf.
     apply (good_bind_opt TComma _ ts3 (length ts2) n); auto.
     - intros ts4 O4 L4. apply (good_bind_opt TEOL _ ts4 (length ts4) n); auto;
         intros ts5 O5 L5; apply (good_weaken (length ts5)); try lia; apply IH; auto; lia.
     - intros ts4 O4 L4. apply good_ret; auto. lia.
   Qed.
 
-  Lemma read_gsub4_good : forall fuel ts n, toks_ok ts -> (length ts <= n)%nat -> (n < fuel)%nat ->
+  Lemma read_gsub4_good : forall fuel ts n, toksL ts -> (length ts <= n)%nat -> (n < fuel)%nat ->
     good n (read_gsub4 F endl fuel ts).
   Proof.
     intros fuel ts n H Hl Hf. unfold read_gsub4.
@@ -501,12 +517,12 @@ Section Total.
     apply good_ret; auto.
   Qed.
 
-  Lemma gpos1_2_loop_good : forall fuel res ts n, toks_ok ts -> (length ts <= n)%nat -> (n < fuel)%nat ->
+  Lemma gpos1_2_loop_good : forall fuel res ts n, toksL ts -> (length ts <= n)%nat -> (n < fuel)%nat ->
     good n (gpos1_2_loop F endl fuel res ts).
   Proof.
     induction fuel as [|f IH]; intros res ts n H Hl Hf; [lia|]. cbn [gpos1_2_loop].
     apply (good_bind _ _ _ n); [apply rgl_good'; auto|]. intros fr ts1 O1 L1.
-    destruct fr as [|g [|g' fr']]; try exact I.
+    destruct fr as [|g [|g' fr']]; try gf.
     apply (good_bind_lt _ _ _ n); [apply required_lt; auto|]. intros _ ts2 O2 L2.
     apply (good_bind _ _ _ (length ts2)); [apply rvr_good; auto; lia|]. intros adj ts3 O3 L3.
     apply (good_bind_opt TComma _ ts3 (length ts2) n); auto.
@@ -515,7 +531,7 @@ Section Total.
     - intros ts4 O4 L4. apply good_ret; auto. lia.
   Qed.
 
-  Lemma gpos1_loop_good : forall fuel subs ts n, toks_ok ts -> (length ts <= n)%nat -> (n < fuel)%nat ->
+  Lemma gpos1_loop_good : forall fuel subs ts n, toksL ts -> (length ts <= n)%nat -> (n < fuel)%nat ->
     good n (gpos1_loop F endl fuel subs ts).
   Proof.
     induction fuel as [|f IH]; intros subs ts n H Hl Hf; [lia|]. cbn [gpos1_loop].
@@ -536,7 +552,7 @@ Section Total.
       + intros ts4 O4 L4. apply good_ret; auto.
   Qed.
 
-  Lemma read_gpos1_good : forall fuel ts n, toks_ok ts -> (length ts <= n)%nat -> (n < fuel)%nat ->
+  Lemma read_gpos1_good : forall fuel ts n, toksL ts -> (length ts <= n)%nat -> (n < fuel)%nat ->
     good n (read_gpos1 F endl fuel ts).
   Proof.
     intros fuel ts n H Hl Hf. unfold read_gpos1.
@@ -545,25 +561,25 @@ Section Total.
     apply good_ret; auto.
   Qed.
 
-  Lemma parse_loop_good : forall fuel acc ts n, toks_ok ts -> (length ts <= n)%nat -> (n < fuel)%nat ->
+  Lemma parse_loop_good : forall fuel acc ts n, toksL ts -> (length ts <= n)%nat -> (n < fuel)%nat ->
     good n (parse_loop F endl fuel acc ts).
   Proof.
     induction fuel as [|f IH]; intros acc ts n H Hl Hf; [lia|]. cbn [parse_loop].
     unfold bind at 1. rewrite read_eq.
-    assert (Hs : ttyp (peek_tok endl ts) <> TEOF -> toks_ok (tl ts) /\ (S (length (tl ts)) <= n)%nat).
+    assert (Hs : ttyp (peek_tok endl ts) <> TEOF -> toksL (tl ts) /\ (S (length (tl ts)) <= n)%nat).
     { intros X. apply peek_not_eof_len in X. split; [apply tl_ok; auto|lia]. }
     assert (Hk : forall (rd : nat -> P lookup),
-               (forall ts' n', toks_ok ts' -> (length ts' <= n')%nat -> (n' < S f)%nat -> good n' (rd (S f) ts')) ->
+               (forall ts' n', toksL ts' -> (length ts' <= n')%nat -> (n' < S f)%nat -> good n' (rd (S f) ts')) ->
                ttyp (peek_tok endl ts) <> TEOF ->
                good n ((l <- rd (S f) ;; parse_loop F endl f (acc ++ [l])) (tl ts))).
     { intros rd Hrd X. destruct (Hs X) as [O1 L1].
       apply (good_bind _ _ _ (length (tl ts))); [apply Hrd; auto; lia|]. intros l ts2 O2 L2.
       apply (good_weaken (length ts2)); [lia|]. apply IH; auto. lia. }
-    destruct (ttyp (peek_tok endl ts)) eqn:E; try exact I.
+    destruct (ttyp (peek_tok endl ts)) eqn:E; try gf.
     - apply good_ret; [apply tl_ok; auto|]. destruct ts; cbn in *; lia.
     - destruct Hs as [O1 L1]; [discriminate|]. apply (good_weaken (length (tl ts))); [lia|]. apply IH; auto. lia.
     - assert (X : TIdent <> TEOF) by discriminate.
-      repeat match goal with |- context [if ?b then _ else _] => destruct b end; try exact I.
+      repeat match goal with |- context [if ?b then _ else _] => destruct b end; try gf.
       + apply (Hk (read_gsub1 F endl)); auto. intros; apply read_gsub1_good; auto.
       + apply (Hk (read_gsub2 F endl)); auto. intros; apply read_gsub2_good; auto.
       + apply (Hk (read_gsub3 F endl)); auto. intros; apply read_gsub3_good; auto.
@@ -578,16 +594,129 @@ End Total.
 Definition total_font_ok (F : font) : Prop :=
   num_glyphs F <= 65535 /\ Forall (fun p => snd p <> 65535) (f_cmap F).
 
-Theorem parse_tokens_total : forall F ts, total_font_ok F -> toks_ok ts ->
-  M_parse_tokens F ts <> PPanic /\ M_parse_tokens F ts <> PFuel.
+Definition total_result (Lok : N -> Prop) (r : presult (list lookup)) : Prop :=
+  match r with
+  | POk _ | PUnmodelled => True
+  | PErr l => Lok l
+  | PPanic | PFuel => False
+  end.
+
+Theorem parse_tokens_total : forall F ts (Lok : N -> Prop), total_font_ok F -> toks_ok ts ->
+  Forall (fun t => Lok (tline t)) ts -> Lok (end_line ts) ->
+  total_result Lok (M_parse_tokens F ts).
 Proof.
-  intros F ts [Hn Hc] H. unfold M_parse_tokens.
-  pose proof (parse_loop_good F (end_line ts) Hn Hc (S (S (length ts))) [] ts (length ts) H (le_n _)) as G.
+  intros F ts Lok [Hn Hc] H HL He. unfold M_parse_tokens.
+  assert (HT : toksL Lok ts).
+  { unfold toksL, tokL, toks_ok in *. rewrite Forall_forall in *. intros t Ht. split; [apply H; auto|apply HL; auto]. }
+  pose proof (parse_loop_good F (end_line ts) Hn Hc Lok He (S (S (length ts))) [] ts (length ts) HT (le_n _)) as G.
   assert (L : (length ts < S (S (length ts)))%nat) by lia. specialize (G L).
   destruct (parse_loop F (end_line ts) (S (S (length ts))) [] ts) as [[ll ts']|l| | |];
-    cbn in G; try contradiction; split; discriminate.
+    cbn in G; cbn; auto.
 Qed.
 
+(* ---- line numbers of the lexer's items ---- *)
+Definition newlines (cs : list N) : N := N.of_nat (count_occ N.eq_dec cs 10).
+
+Section LexLines.
+  Variable U : uclass.
+
+  Lemma lstart_line : forall line c ts st l, lstart U line c = (ts, st, l) ->
+    Forall (fun t => tline t = line) ts /\ (l = line \/ (l = line + 1 /\ c = 10)) /\ (st = LDone -> ts <> []).
+  Proof.
+    intros line c ts st l H. unfold lstart in H.
+    destruct (c =? 0); [inversion H; subst; repeat split; auto; discriminate|].
+    destruct (c =? 10) eqn:E10.
+    { apply N.eqb_eq in E10. inversion H; subst. repeat split; auto; discriminate. }
+    repeat match type of H with (if ?b then _ else _) = _ => destruct b end;
+      try (inversion H; subst; repeat split; auto; discriminate).
+    destruct (single_char c); [inversion H; subst; repeat split; auto; discriminate|].
+    repeat match type of H with (if ?b then _ else _) = _ => destruct b end;
+      inversion H; subst; repeat split; auto; discriminate.
+  Qed.
+
+  Lemma lstep_line : forall st line c ts st' l, lstep U st line c = (ts, st', l) ->
+    Forall (fun t => tline t = line) ts /\ (l = line \/ (l = line + 1 /\ c = 10))
+    /\ (st <> LDone -> st' = LDone -> ts <> []).
+  Proof.
+    intros st line c ts st' l H.
+    assert (ET : forall t r, emit_then t r = (ts, st', l) -> tline t = line ->
+              (forall ts0 st0 l0, r = (ts0, st0, l0) ->
+                 Forall (fun t => tline t = line) ts0 /\ (l0 = line \/ (l0 = line + 1 /\ c = 10)) /\ (st0 = LDone -> ts0 <> [])) ->
+              Forall (fun t => tline t = line) ts /\ (l = line \/ (l = line + 1 /\ c = 10)) /\ (st <> LDone -> st' = LDone -> ts <> [])).
+    { intros t [[ts0 st0] l0] He Ht Hr. cbn in He. inversion He; subst.
+      destruct (Hr ts0 st' l eq_refl) as (A & B & C). repeat split; auto. discriminate. }
+    destruct st; cbn [lstep] in H.
+    - destruct (lstart_line _ _ _ _ _ H) as (A & B & C). repeat split; auto.
+    - destruct (ident_char U c); [inversion H; subst; repeat split; auto; discriminate|].
+      destruct (c =? 0); [inversion H; subst; repeat split; auto; discriminate|].
+      eapply ET; eauto. intros. eapply lstart_line; eauto.
+    - destruct (is_adigit c); [inversion H; subst; repeat split; auto; discriminate|].
+      eapply ET; eauto. intros. eapply lstart_line; eauto.
+    - repeat match type of H with (if ?b then _ else _) = _ => destruct b end;
+        inversion H; subst; repeat split; auto; discriminate.
+    - destruct ((c =? 0) || (c =? 10)).
+      + destruct (lstart_line _ _ _ _ _ H) as (A & B & C). repeat split; auto.
+      + inversion H; subst; repeat split; auto; discriminate.
+    - destruct (c =? 62); [inversion H; subst; repeat split; auto; discriminate|].
+      destruct (is_adigit c); [inversion H; subst; repeat split; auto; discriminate|].
+      eapply ET; eauto. intros. eapply lstart_line; eauto.
+    - destruct (c =? 124); [inversion H; subst; repeat split; auto; discriminate|].
+      eapply ET; eauto. intros. eapply lstart_line; eauto.
+    - inversion H; subst. repeat split; auto. intros X. congruence.
+  Qed.
+
+  Lemma newlines_cons : forall c cs, newlines (c :: cs) = newlines cs + (if c =? 10 then 1 else 0).
+  Proof.
+    intros c cs. unfold newlines. cbn [count_occ]. destruct (N.eq_dec c 10) as [E|E].
+    - subst. cbn. lia.
+    - assert (X : (c =? 10) = false) by lia. rewrite X. lia.
+  Qed.
+
+  Lemma lexm_lines : forall cs st line,
+    Forall (fun t => line <= tline t <= line + newlines cs) (lexm U st line cs).
+  Proof.
+    induction cs as [|c cs IH]; intros st line; cbn [lexm].
+    - unfold newlines. cbn. destruct st; cbn; repeat constructor; cbn; lia.
+    - destruct (lstep U st line c) as [[ts st'] l'] eqn:E.
+      destruct (lstep_line _ _ _ _ _ _ E) as (A & B & _). rewrite newlines_cons.
+      apply Forall_app. split.
+      + eapply Forall_impl; [|exact A]. intros t Ht. cbn in Ht. lia.
+      + eapply Forall_impl; [|apply IH]. intros t Ht. cbn in Ht.
+        destruct B as [B|[B1 B2]]; subst.
+        * lia.
+        * rewrite N.eqb_refl. lia.
+  Qed.
+
+  Lemma lexm_nonempty : forall cs st line, st <> LDone -> lexm U st line cs <> [].
+  Proof.
+    induction cs as [|c cs IH]; intros st line H; cbn [lexm].
+    - destruct st; cbn; congruence.
+    - destruct (lstep U st line c) as [[ts st'] l'] eqn:E.
+      destruct (lstep_line _ _ _ _ _ _ E) as (_ & _ & C).
+      destruct ts as [|t ts']; [|discriminate]. cbn [app]. apply IH.
+      intros X. apply (C H X). reflexivity.
+  Qed.
+
+  Lemma lex_lines : forall text,
+    Forall (fun t => 1 <= tline t <= 1 + newlines text) (M_lex U text)
+    /\ 1 <= end_line (M_lex U text) <= 1 + newlines text.
+  Proof.
+    intros text. pose proof (lexm_lines text LStart 1) as H. split; [exact H|].
+    unfold end_line, last_opt. fold (M_lex U text) in H.
+    pose proof (lexm_nonempty text LStart 1 ltac:(discriminate)) as Hn. fold (M_lex U text) in Hn.
+    destruct (rev (M_lex U text)) as [|t r] eqn:Er.
+    - exfalso. apply Hn. rewrite <- (rev_involutive (M_lex U text)), Er. reflexivity.
+    - rewrite Forall_forall in H. apply H. apply in_rev. rewrite Er. left. reflexivity.
+  Qed.
+End LexLines.
+
+(* P1 parse_total: Parse of ANY text, over any font without a cmap entry for
+   glyph 65535, ends in lookups, in an error whose line lies inside the text,
+   or at a keyword of the unmodelled grammar; it never panics and no loop
+   runs for ever *)
 Theorem parse_total_text : forall U F text, total_font_ok F ->
-  M_parse U F text <> PPanic /\ M_parse U F text <> PFuel.
-Proof. intros. unfold M_parse. apply parse_tokens_total; auto. apply lex_toks_ok. Qed.
+  total_result (fun l => 1 <= l <= 1 + newlines text) (M_parse U F text).
+Proof.
+  intros U F text HF. unfold M_parse. destruct (lex_lines U text) as [A B].
+  apply parse_tokens_total; auto. apply lex_toks_ok.
+Qed.
